@@ -43,6 +43,8 @@ def build(desc):
     c.d = int(rng.randint(1, 4))
     c.data = desc.get("data") or gen.DATA_MODES[rng.randint(len(gen.DATA_MODES))]
     c.labels = desc.get("labels") or gen.LABEL_REGIMES[rng.randint(len(gen.LABEL_REGIMES))]
+    if c.labels == "full" and desc.get("cmode") not in ("feat", "idx_any"):
+        c.labels = "lastone"
     c.X = gen.make_X(rng, c.n, c.d, c.data)
     n_classes = 2 if e.binary else 3
     c.classes = CLASSES[:n_classes]
